@@ -9,12 +9,12 @@ LEVEL = 'exploration'
 RULE = ('geographic cases as C01 and grid-lattice cases as C02; psf and convergence returned by geo2grid and grid2geo '
         'are compared with tm_exact (scale = k0|dM/dw|/(nu cos phi), convergence = arg dM/dw) for the ellipsoid and '
         'projection of the call; the inverse output is fed back into the forward call and the two reports compared; '
-        'all four quadrants about equator/CM and the axes are class buckets; distinct = class buckets')
+        'all four quadrants about equator/CM and the axes are class buckets; 3 % of the cases are preceded by one or two calls the property does not speak about (latitude/longitude/zone outside the accepted ranges, NaN, strings, invalid hemisphere words): not judged, exceptions swallowed, the judged call after them must be as right as ever.  distinct = class buckets')
 ASSUMPTIONS = ['tm_exact oracle (self-validated each shard, incl. numerical conformality and published Flinders Peak '
                'psf/convergence for the sign convention)']
 N = {'quick': 1500, 'thorough': 25000}
 SHARDS = {'quick': 16, 'thorough': 32}
-REQUIRED_COUNTERS = ['across_antimeridian_cases', 'alias_sequences', 'near_axis_cases', 'psfconv_forward', 'psfconv_inverse', 'psfconv_agreement']
+REQUIRED_COUNTERS = ['unjudged_calls_before_a_judged_one', 'across_antimeridian_cases', 'alias_sequences', 'near_axis_cases', 'psfconv_forward', 'psfconv_inverse', 'psfconv_agreement']
 
 
 def plan(tier, seed):
@@ -52,6 +52,8 @@ def run_shard(spec, ctx):
             ctx.sample({'kind': '1x1 degree lattice x 3 zone modes', 'part': spec['lattice'], 'ell': spec['ell']})
         for i in range(spec['n']):
             case = tmwork.gen_geo_case(rnd, coordapi=False)
+            if rnd.random() < 0.03:
+                case['before'] = tmwork.gen_unjudged_calls(rnd)
             # axes: exactly on the central meridian / equator in a share of cases
             r = rnd.random()
             if r < 0.05 and case['zone'] != 0:
@@ -64,6 +66,8 @@ def run_shard(spec, ctx):
                 ctx.sample(case)
             _one(ns, ctx, case)
             case = tmwork.gen_grid_case(rnd)
+            if rnd.random() < 0.03:
+                case['before'] = tmwork.gen_unjudged_calls(rnd)
             if i < 1:
                 ctx.sample(case)
             _one(ns, ctx, case)
